@@ -137,6 +137,16 @@ func runC04(c *Check) {
 			}
 		}
 
+		// R13: the block found at the next height is the one this step saved before a crash; it is
+		// taken over as it is. A return between finding it and executing it — a test on the stored
+		// block's content — fails the same way on every later attempt and after every restart.
+		if len(loadOK) > 0 && len(g.Select(isExec)) > 0 {
+			c.Decide("C04-R13", fnShort(step)+" ⟂ stored-block-taken-over", fn, g.P.InstrPos(loadOK[0].In),
+				"every path from finding a block stored at the next height leads to its execution: the step refuses nothing about a block it saved itself",
+				"the production step can return after finding a block stored at the next height and before executing it: the early-saved block is unsigned (it carries the previous block's signature), so a refusal on its content repeats on every attempt and after every restart — the node can never produce a block again", g,
+				g.MustFollow(nodeSet(loadOK), isExec, g.AnyExit()))
+		}
+
 		// R4
 		if len(g.Select(isExec)) == 0 {
 			c.Unk("C04-R4", fnShort(step)+" ⟂ ExecuteTxs", fn, "", "anchor lost: no Executor.ExecuteTxs in reach of the production step")
@@ -151,6 +161,8 @@ func runC04(c *Check) {
 	c.MinInstances("C04-R1", 2)
 	c.MinInstances("C04-R3", 3)
 	c.MinInstances("C04-R4", 1)
+	c.Doc("C04-R13", "EO: from the success edge of Store.GetBlockData(Store.Height()+1) (a block saved before a crash) every path to a return of the production step passes Executor.ExecuteTxs: the stored block is taken over as it is, never refused on its content (the early-saved block is not yet signed).")
+	c.MinInstances("C04-R13", 1)
 
 	ruleRestartReconciliation(c, p, "C04-R2")
 	ruleCacheFiles(c, p, "C04-R5")
@@ -251,6 +263,7 @@ func runC05(c *Check) {
 	ruleReexecutionAccepted(c)
 	rulePersistedStateLoadable(c, p, "C05-R5")
 	ruleMarksAfterItems(c, p, "C05-R6")
+	ruleSeenCensus(c, p, "C05-R9", steps)
 	ruleSinglePurposeWriters(c, p, "C05-R7")
 	ruleWritersRefuseNothing(c, p, "C05-R8")
 }
